@@ -51,7 +51,7 @@ FreshState ==
    foreign |-> 0]      \* elements built before the call and destroyed during it
 
 Creating == {"uniq", "arr", "shared", "joint", "clone", "jmove", "ja"}
-Jointish == {"joint", "clone", "jmove", "ja", "jraw", "vpush"}
+Jointish == {"joint", "clone", "jmove", "ja", "jraw", "vpush", "vmove"}
 Benign == {"ok", "empty", "kind"}   \* "empty"/"kind": the command found nothing to act on
 
 HasBlk(b) == b >= 0 /\ b < Len(st.blocks)
